@@ -177,16 +177,14 @@ func runIdxKeyType(c *core.Ctx) {
 		if c.P.PkgOf(fn) != core.ModulePath {
 			continue
 		}
-		an.Instrs(fn, func(in ssa.Instruction) {
-			a, ok := in.(*ssa.Alloc)
-			if !ok || !isNamedRoot(a.Type(), "eventCacheEvsIndexKey") {
-				return
-			}
-			fs := an.StructLitFields(a)
+		for _, lit := range an.StructLits(fn, func(n *types.Named) bool {
+			return an.TypeNameHook(n.Obj()) == "eventCacheEvsIndexKey" && n.Obj().Pkg() != nil && n.Obj().Pkg().Path() == core.ModulePath
+		}) {
+			fs := lit.Fields
 			w, ok1 := fs["What"]
 			v, ok2 := fs["Value"]
 			if !ok1 || !ok2 {
-				return
+				continue
 			}
 			// the dynamic type stored in the interface: strip the boxing only
 			tv := v
@@ -194,7 +192,7 @@ func runIdxKeyType(c *core.Ctx) {
 				tv = mi.X
 			}
 			if _, isTP := tv.Type().(*types.TypeParam); isTP {
-				return // the generic body; its instantiations are looked at
+				continue // the generic body; its instantiations are looked at
 			}
 			t := types.TypeString(tv.Type(), nil)
 			var ks []int64
@@ -222,16 +220,16 @@ func runIdxKeyType(c *core.Ctx) {
 					}
 				}
 			} else {
-				return
+				continue
 			}
 			for _, k := range ks {
 				n++
 				if byWhat[k] == nil {
 					byWhat[k] = map[string][]string{}
 				}
-				byWhat[k][t] = append(byWhat[k][t], fname(c, fn)+"@"+P.Pos(a.Pos()))
+				byWhat[k][t] = append(byWhat[k][t], fname(c, fn)+"@"+P.Pos(lit.Pos))
 			}
-		})
+		}
 	}
 	c.CountSites(n)
 	if n == 0 {
